@@ -5,7 +5,7 @@ import ast
 from typing import Any, Dict, List, Optional, Sequence, Set, Tuple
 
 from ..collect import callee_is
-from ..common import calls_in, construct, where
+from ..common import ast_text_parts, calls_in, construct, where
 from ..flow import ANY_BASE, ANY_EXC, FALSE, NONE, TRUE, Client, Interp, State, Value, contains, show
 from ..fold import Folder, NotConst
 from ..loader import AnalysisError, ClassInfo, FuncInfo, Program, walk_shallow
@@ -423,12 +423,22 @@ def check_wsgi(p: Program, rep: Report) -> None:
     if ssm is None:
         raise AnalysisError("StatusStringMapping vanished")
     ok = False
-    if isinstance(ssm, ast.Call) and len(ssm.args) >= 1 and isinstance(ssm.args[0], ast.Lambda):
-        lam = ssm.args[0]
-        body = lam.body
-        arg = lam.args.args[0].arg if lam.args.args else None
-        if isinstance(body, ast.JoinedStr) and body.values and isinstance(body.values[0], ast.FormattedValue) and isinstance(body.values[0].value, ast.Name) and body.values[0].value.id == arg \
-                and len(body.values) > 1 and isinstance(body.values[1], ast.Constant) and body.values[1].value.startswith(" ") and len(body.values[1].value.strip()) > 0:
+    # the factory of the table: a lambda, or a module-level function with a single return; its text must be
+    # '<the code> <non-empty reason>' in whichever formatting idiom
+    fac_arg = fac_body = None
+    if isinstance(ssm, ast.Call) and len(ssm.args) >= 1:
+        fac = ssm.args[0]
+        if isinstance(fac, ast.Lambda) and fac.args.args:
+            fac_arg, fac_body = fac.args.args[0].arg, fac.body
+        elif isinstance(fac, ast.Name) and fac.id in mod.functions:
+            ff = mod.functions[fac.id]
+            body_ = [st for st in ff.node.body if not (isinstance(st, ast.Expr) and isinstance(st.value, ast.Constant))]
+            if len(body_) == 1 and isinstance(body_[0], ast.Return) and body_[0].value is not None and ff.params and not ff.decorators:
+                fac_arg, fac_body = ff.params[0], body_[0].value
+    if fac_body is not None:
+        parts = ast_text_parts(p, mod, fac_body)
+        if parts and len(parts) == 2 and parts[0] in (("param", fac_arg), ("fmt", ("param", fac_arg), "", "d")) and parts[1][0] == "const" and isinstance(parts[1][1], str) \
+                and parts[1][1].startswith(" ") and len(parts[1][1].strip()) > 0:
             ok = True
     if ok:
         rep.ok("R5.3", "StatusStringMapping falls back to f'{status} <reason>' for unknown codes")
